@@ -23,7 +23,7 @@ RULE = (
     "cases: subject channel (exec channel or sub-channel created on either side and passed over a channel) closed by "
     "explicit close / end of remote body (also by an EOFError leaving it) / reference drop + gc after 0-6 items, with 1-3 concurrent receivers, "
     "waitclose callers and endmarker-callback observers on the peer, each followed by probes (send, isclosed, "
-    "waitclose, close, receive, own close of the observer); optionally a probe that waitclose(timeout) times out while "
+    "waitclose, close, receive, own close of the observer; 30 % of the send probes with an item that cannot be serialised); optionally a probe that waitclose(timeout) times out while "
     "the channel is still open, and large frames on a sibling channel written by the closing side at the same time; "
     "popen/bare/socket/proxy transports, small pipes, schedules uniform/sticky/PCT with "
     "0-3 line preemptions.  Non-trivial = the close was observed by at least one peer task under a schedule with real "
